@@ -228,6 +228,36 @@ def subset_strings():
     return sorted(set(out))
 
 
+def long_strings():
+    """Scale: hundreds of repeated / distinct fields, very long fields and values, long runs of
+    separators - and the longest valid vectors in several orders."""
+    out = []
+    for fam in T.FAMILIES:
+        tab = T.METRICS[fam]
+        P = T.PREFIX[fam]
+        full = dict((m, tab[m][-1]) for m in tab)
+        v = T.spell(fam, full)
+        f = v[len(P):].split("/")
+        out += [v, P + "/".join(f[::-1]), P + "/".join(sorted(f)), P + "/".join(f * 2), P + "/".join(f * 200),
+                P + "/".join(f + f[:1] * 500), v + "/" * 1000, P + "/" * 5000 + "/".join(f),
+                P + "/".join(f[:-1] + [f[-1] + "A" * 100000]), P + "/".join(["A" * 100000 + ":N"] + f[1:]),
+                P + "/".join(f[:-1] + [f[-1].split(":")[0] + ":" * 1000 + "N"]), P * 1000 + "/".join(f),
+                v + "/ZZ:" + "9" * 50000, v + " " * 10000, "\n" * 1000 + v,
+                P + "/".join("%s:%s" % (m, tab[m][0]) for m in list(tab) * 50)]
+        if fam != "2":
+            body = v[len(P):]
+            out += [P[:-1] + "1" * 5000 + "/" + body, P[:-2] + "0" * 4400 + P[-2:] + body,
+                    "CVSS:" + P[5] * 5000 + P[6:] + body, P[:-1] + "." + "0" * 5000 + "/" + body]
+    return out
+
+
+def _long_task(chunk):
+    acc = sweep.new_acc()
+    for s in chunk:
+        judge(acc, s)
+    return acc
+
+
 def _subset_task(chunk):
     acc = sweep.new_acc()
     for s in chunk:
@@ -272,6 +302,9 @@ def run(ctx, res):
     tasks = [(chars, [c1 + c2 for c2 in chars], maxlen) for c1 in firsts]
     accs3 = core.task_map(_short_task, tasks)
     short_n = sum(a["n"] for a in accs3)
+    longs = long_strings()
+    accs3 += core.task_map(_long_task, [longs[i::8] for i in range(8)])
+    stats["long_strings"] = len(longs)
     subs = subset_strings()
     accs3 += core.task_map(_subset_task, [subs[i::8] for i in range(8)])
     stats["subset_strings"] = len(subs)
